@@ -5,6 +5,10 @@
 
 def gz(n):
     n = int(n)
+    if n.bit_length() > 1024:
+        # hexadecimal numeral: the decimal conversion of huge ints is limited (sys.set_int_max_str_digits) and the
+        # worker must not lift that limit, the library under test runs in the same process
+        return "0x%x" % n if n >= 0 else "(-0x%x)" % -n
     return str(n) if n >= 0 else "(%d)" % n
 
 
